@@ -44,9 +44,9 @@ def c05_reasons(prev_post, ev):
                 if o and (o["d"] != e["d"] or o["m"] != e["m"] or o["u"] != e["u"] or o["g"] != e["g"]):
                     why.append("hard links /%s and /%s differ" % ("/".join(e["p"]), "/".join(q)))
     if ev["res"]["err"] not in ("ok", "EOF") and ev["call"]["op"] not in ("removeall", "mkdirall") and prev_post is not None:
-        if canon(prev_post) != canon(ev["post"]) and ev["res"]["err"] not in ("PANIC", "DEADLOCK", "DEAD"):
+        if canon(prev_post) != canon(ev["post"]) and ev["res"]["err"] not in ("PANIC", "DEADLOCK", "DEAD", "HANG"):
             why.append("a failed call changed the tree")
-    if ev["res"]["err"] in ("PANIC", "DEADLOCK"):
+    if ev["res"]["err"] in ("PANIC", "DEADLOCK", "HANG"):
         pass  # C07's business
     return why
 
